@@ -239,10 +239,16 @@ OBJ_ATOMS = [
     ('#4a', lambda o: o[1:] == (4, 0)),
     ('4278190080b', lambda o: o[1:] == (S, 1)),
     ('xdg_*', o_type('xdg_*')),
+    # wildcards that do not end in `*` (the whole word must be covered), nested lists with an inner exclusion
+    ('wl_*fac', o_type('wl_*fac')),
+    ('*_surf', o_type('*_surf')),
+    ('wl_s*e', o_type('wl_s*e')),
+    ('[6, [wl_* ! wl_pointer]]', lambda o: o[1] == 6 or (o[0].startswith('wl_') and o[0] != 'wl_pointer')),
+    ('[[wl_surface ! 4b], 4b]', lambda o: o[0] == 'wl_surface' or o[1:] == (4, 1)),
 ]
 # which object atoms are "type-like" (a bare type against a typed nil is not decided by the documentation)
 TYPE_LIKE = {'wl_surface', 'wl_*', '*', 'wl_surface@', '[wl_surface, 3]', '[wl_* ! wl_surface]', 'wl_*face', '*surface',
-             'x*', 'xdg_*', ''}
+             'x*', 'xdg_*', '', 'wl_*fac', '*_surf', 'wl_s*e', '[6, [wl_* ! wl_pointer]]', '[[wl_surface ! 4b], 4b]'}
 
 # name atoms: (text or None when the `.name` part is absent, predicate, names the pseudo messages explicitly?)
 NAME_ATOMS = [
@@ -257,6 +263,11 @@ NAME_ATOMS = [
     ('[* ! commit]', lambda n: n != 'commit', False),
     ('[new, commit]', lambda n: n in ('new', 'commit'), True),
     ('*t*', wild('*t*'), False),
+    ('set_*l', wild('set_*l'), False),
+    ('comm*i', wild('comm*i'), False),
+    ('*_scale', wild('*_scale'), False),
+    ('[commit, [set_* ! set_title]]', lambda n: n == 'commit' or (n.startswith('set_') and n != 'set_title'), False),
+    ('[[* ! commit], commit]', ALL, False),
 ]
 
 
@@ -352,6 +363,12 @@ ARG_ATOMS = [
     ('(! nil)', argl([], [a_nil])),
     ('(surface=wl_surface)', argl([a_and(a_named('surface'), a_word('wl_surface'))])),
     ('(height=3 ! 4096)', argl([a_and(a_named('height'), a_int(3))], [a_int(4096)])),
+    ('(wl_*f)', argl([a_word('wl_*f')])),
+    ('(*ssed)', argl([a_word('*ssed')])),
+    ('(pres*e)', argl([a_word('pres*e')])),
+    ('(state=[released, [* ! released]])', argl([a_and(a_named('state'), a_word('*'))])),
+    ('(time=[100, [* ! 100, 101]])', argl([a_and(a_named('time'), a_or(a_int(100), lambda a: a['kind'] == 'int' and a['value'] not in (100, 101)))])),
+    ('(s*l=)', argl([lambda a: a['name'] is not None and fnmatch.fnmatchcase(a['name'], 's*l')])),
 ]
 
 
